@@ -39,6 +39,8 @@ type Opts struct {
 	// NoAdvance drops the single-step verdict event (the Agglayer-side situations are then nothing,
 	// pending, in error, settled).
 	NoAdvance bool
+	// StorageFaultsOnly: of the crash alphabet only the one-shot storage faults of the send path (C02's fault units)
+	StorageFaultsOnly bool
 }
 
 // Exec is one execution: a history of events applied to fresh real objects.
@@ -554,11 +556,14 @@ func (x *Exec) enabled() []string {
 		ev = append(ev, "ProverShort")
 	}
 	if x.Opt.Crashes && x.budgetUsed < x.Opt.MaxCrashEvents {
-		ev = append(ev, "Restart", "LoseDB")
-		if x.Opt.NoPlainFailNext {
+		only := x.Opt.StorageFaultsOnly
+		if !only {
+			ev = append(ev, "Restart", "LoseDB")
+		}
+		if x.Opt.NoPlainFailNext && !only {
 			ev = append(ev, "Restart+fail", "LoseDB+fail", "Restart+fail2", "LoseDB+fail2")
 		}
-		if x.Cfg.Faults && len(x.Ag.Entries) > 0 {
+		if x.Cfg.Faults && len(x.Ag.Entries) > 0 && !only {
 			ev = append(ev, "LoseDB+fault") // the recovery save is a save transaction too
 		}
 		if x.Opt.Contradictions && len(x.Ag.Entries) > 0 && x.Ag.Last().Status != agglayertypes.Settled {
@@ -583,6 +588,9 @@ func (x *Exec) enabled() []string {
 			}
 			for _, k := range kinds {
 				for _, p := range CrashPoints {
+					if x.Opt.StorageFaultsOnly {
+						break
+					}
 					ev = append(ev, k+"/crash@"+p)
 					if x.Opt.NoPlainFailNext && p == "afterSubmitBeforeStore" && k == "EpochTick" {
 						// the node comes back while the Agglayer answers its first query and fails the second one
